@@ -369,6 +369,33 @@ func (h *apiHarness) op(f []string) (res string) {
 			}
 		}
 		return "expire " + strings.Join(ids, ",")
+	case "death": // death <name> <cmid>: an entry which was rewritten as message of death (as a crashed apply leaves it)
+		id, _ := strconv.ParseUint(h.sid(f[1]), 0, 64)
+		before := h.lastIndex()
+		err := h.api.ApplyMessageWait(&robust.Message{Type: robust.MessageOfDeath, Session: robust.Id{Id: id}, Data: "PANIC", ClientMessageId: iu64(f[2])}, 2*time.Second)
+		if err != nil {
+			return "error " + err.Error()
+		}
+		return fmt.Sprintf("ok newentries=%d", h.lastIndex()-before)
+	case "getfuture": // getfuture <authspec-literal> <ms>: GET for the session id that the next create will get, then create
+		next := h.lastIndex() + 1
+		type res struct {
+			code int
+			n    int
+		}
+		done := make(chan res, 1)
+		ms, _ := strconv.Atoi(f[2])
+		go func() {
+			code, body, _ := h.do("GET", fmt.Sprintf("/robustirc/v1/0x%x/messages?lastseen=0.0", next), nil, map[string]string{"X-Session-Auth": f[1]}, "", time.Duration(ms)*time.Millisecond)
+			done <- res{code, len(body)}
+		}()
+		time.Sleep(time.Duration(ms/3) * time.Millisecond)
+		code, body, _ := h.do("POST", "/robustirc/v1/session", nil, nil, "", 0)
+		var r struct{ Sessionid, Sessionauth string }
+		json.Unmarshal(body, &r)
+		id, _ := strconv.ParseUint(r.Sessionid, 0, 64)
+		g := <-done
+		return fmt.Sprintf("get=%d bytes=%d create=%d hit=%v", g.code, g.n, code, id == next)
 	case "sleep":
 		ms, _ := strconv.Atoi(f[1])
 		time.Sleep(time.Duration(ms) * time.Millisecond)
